@@ -7,7 +7,7 @@
      C02  no panic, Strip(out) = SMap(in)
      C04  ShareOK(out), source unchanged
      C13  the generator neither panicked nor hung                                                   *)
-EXTENDS RulesUniverse, Json
+EXTENDS RulesUniverse, Json, FP
 CONSTANT ObsFile
 Obs == ndJsonDeserialize(ObsFile)
 
@@ -48,8 +48,8 @@ Init == l = 1 /\ bad = {}
 Next == /\ l <= Len(Obs)
         /\ LET f == Finger(Obs[l]) IN
            /\ bad' = bad \cup {<<x[1], x[2], x[3]>> : x \in f}
-           /\ (IF f = {} THEN TRUE ELSE PrintT(<<"FP", f>>))
+           /\ EmitFP(f)
         /\ l' = l + 1
 Done == l = Len(Obs) + 1
-Report == Done => PrintT(<<"SUMMARY", Len(Obs), bad>>)
+Report == Done => EmitSummary(Len(Obs))
 =============================================================================
